@@ -124,6 +124,9 @@ pub struct Slot {
     pub ops_since_fault: u32,
     /// a Rust constraint rejected a commit earlier (known finding F8: the token may have been partly consumed)
     pub rejected_commit: bool,
+    /// the rejected token starts with a byte the grammar accepts at that point (known finding F8:
+    /// part of a rejected token may already have been consumed)
+    pub rejected_partial: bool,
 }
 
 #[derive(Default, Clone, Debug, Serialize)]
@@ -378,6 +381,7 @@ impl<'a> Exec<'a> {
             c_ff: false,
             ops_since_fault: 0,
             rejected_commit: false,
+            rejected_partial: false,
         }
     }
 
@@ -966,6 +970,7 @@ impl<'a> Exec<'a> {
             c_ff: s.c_ff,
             ops_since_fault: 0,
             rejected_commit: s.rejected_commit,
+            rejected_partial: s.rejected_partial,
         };
         let mut ns = ns;
         if ns.failed.is_none() {
